@@ -433,3 +433,73 @@ def run_c01_coap(case, R):
 C01_COAP_LAYERS = [Layer("coap-transport", run_c01_coap, enumerate=lambda tier: ({"fault": f, "k": k} for f in ("none", "bad-sig", "wrong-id", "flip-enc", "error-m2", "error-m4", "error-m4-nostate")
                                                                                    for k in range(3 if tier == "quick" else 30)),
                          exhaustive=True, space="honest + 6 verify faults x 3 (quick) / 30 (thorough) key sets", min_nontrivial=10)]
+
+
+# ---------------------------------------------------------------- C12: CoAP event notifications -> listeners (every record once, in order)
+def run_c12_coap(case, R):
+    """notifications = list of notifications, each a list of (iid, value selector) records; listeners: kinds normal / raising."""
+    notes = case["notes"]
+    R.nt(any(len(n) >= 2 for n in notes) or "raising" in case["listeners"])
+    R.cls("coap-events", "repeated-iid" if any(len({i for i, _ in n}) < len(n) for n in notes) else "distinct-iids")
+
+    async def main(loop):
+        w = CoapWorld(loop, k=case.get("k", 0))
+        try:
+            p = w.pairing
+            logs = []
+            for kind in case["listeners"]:
+                log = []
+                logs.append((kind, log))
+
+                def cb(ev, log=log, kind=kind):
+                    log.append({k_: dict(v) for k_, v in ev.items()})
+                    if kind == "raising":
+                        raise RuntimeError("listener failure")
+                p.dispatcher_connect(cb)
+            await p.list_accessories_and_characteristics()
+            await p.subscribe([(1, i) for i in (10, 11)])
+            for _, log in logs:
+                log.clear()
+            expect = []
+            for n, note in enumerate(notes):
+                items = []
+                for iid, sel in note:
+                    v = value_for(iid, sel)
+                    items.append((iid, wire(iid, v)))
+                    expect.append(((1, iid), v))
+                try:
+                    resp = await w.push_event(w.acc.event_ciphertext(items))
+                except Exception as e:  # noqa: BLE001
+                    R.fail("C12.event-breaks-connection", f"CoAP notification {n} {note}: handler raised {type(e).__name__}: {e}", exc=type(e).__name__)
+                    return
+                if str(resp.code) != "2.03 Valid":
+                    R.fail("C12.event-breaks-connection", f"CoAP notification {n} {note}: answered {resp.code}", exc="none")
+                    return
+            for kind, log in logs:
+                got = [(k_, v.get("value")) for ev in log for k_, v in ev.items()]
+                if got != expect:
+                    R.fail("C12.listener-log", f"CoAP notifications {notes}: listener ({kind}) saw {got!r:.300} expected {expect!r:.300}",
+                           kind="missing" if len(got) < len(expect) else ("extra" if len(got) > len(expect) else "different"), raising_peer="raising" in case["listeners"])
+                    return
+            await p.shutdown()
+        finally:
+            w.restore()
+    vtime.run(main)
+
+
+@st.composite
+def c12_coap_cases(draw):
+    rec = st.tuples(st.sampled_from([10, 11, 11, 12, 14]), st.integers(0, 40)).map(list)
+    return {"notes": draw(st.lists(st.lists(rec, min_size=1, max_size=4), min_size=1, max_size=4)), "k": draw(st.integers(0, 5)),
+            "listeners": draw(st.lists(st.sampled_from(["normal", "normal", "raising"]), min_size=1, max_size=3))}
+
+
+def enum_c12_coap(tier):
+    yield {"notes": [[[10, 1], [10, 0], [10, 1]]], "listeners": ["normal"]}
+    yield {"notes": [[[11, 3], [11, 7]], [[11, 3]]], "listeners": ["normal", "raising", "normal"]}
+    yield {"notes": [[[10, 1], [11, 2], [12, 3], [14, 5]]], "listeners": ["raising", "normal"]}
+    yield {"notes": [[[11, 1]], [[11, 2]], [[11, 2]]], "listeners": ["normal"]}
+
+
+C12_COAP_LAYERS = [Layer("coap-events-fixed", run_c12_coap, enumerate=enum_c12_coap, exhaustive=True, space="4 fixed notification shapes (repeated instance id in one notification, raising listeners)"),
+                   Layer("coap-events", run_c12_coap, strategy=c12_coap_cases, n={"quick": 400, "thorough": 8000}, min_nontrivial=100)]
